@@ -542,14 +542,14 @@ RET_OWNER = {
     "Contains": "C01", "Lpm": "C02", "Iter": "C03", "Len": "C04", "Spm": "C09", "Cover": "C09",
     "Children": "C10", "Retain": "C10", "RemoveChildren": "C10", "PathReplay": "C01",
     "ViewDesc": "C11", "Find": "C12", "ViewSet": "C01", "ViewRemove": "C01", "ViewValueMut": "C13", "ViewIterMut": "C13",
-    "CloneCheck": "C19", "Collect": "C19", "Serde": "C19", "Alias": "C14",
+    "SplitOp": "C06", "CloneCheck": "C19", "Collect": "C19", "Serde": "C19", "Alias": "C14",
     "Entry": "C01", "GetMut": "C01", "LpmMut": "C02", "IterMut": "C03", "ValuesMut": "C03", "ChildrenMut": "C10",
 }
 MUT_TRAVERSALS = {"GetMut", "LpmMut", "IterMut", "ValuesMut", "ChildrenMut", "ViewValueMut", "ViewIterMut"}
 
 
 PAIR_OWNER = {"Union": "C05", "UnionMut": "C05", "Inter": "C06", "InterMut": "C06", "Diff": "C07", "DiffMut": "C07",
-              "CovDiff": "C07", "CovDiffMut": "C07", "Eq": "C19"}
+              "CovDiff": "C07", "CovDiffMut": "C07", "Eq": "C19", "PairWrite": "C13"}
 
 
 def _core_items(act, ret):
@@ -586,6 +586,8 @@ def pair_owners(mm):
         o.add(base)
     if act.endswith("Mut"):
         o.add("C13")
+    if act == "PairWrite":
+        return {"C13"}
     return o
 
 
@@ -633,6 +635,8 @@ def owners(mm):
 def owners_plain(mm):
     kind = mm["kind"]
     act = mm["e"].get("a", "?")
+    if act == "SplitOp" and kind == "ret":
+        return {{"Union": "C05", "Inter": "C06", "Diff": "C07", "CovDiff": "C07"}.get(mm["e"].get("op"), "C06")}
     if kind == "pre":
         # the path to the row's state did not reproduce it: blame by what differs
         try:
